@@ -105,6 +105,7 @@ FAMILIES = {
                     "chain_cap": True, "cuboid": True, "dense": True},
     "cuboid_soft": {"base": "harness:cuboid_soft", "n": (2, 8), "cost": 1, "chain_cap": True, "cuboid": True},
     "water_motion": {"base": "harness:water_motion", "n": (2, 4), "cost": 2},
+    "water_cb": {"base": "harness:water_cell_bounded_coulomb", "n": (2, 4), "cost": 3},
     "dip_atom_phase": {"base": "harness:dip_atom_phase", "n": (2, 4), "cost": 1},
     "hdd_cells": {"base": "harness:hard_disk_dipoles_cells", "n": (9, 9), "cost": 2, "lattice": True,
                   "fixed_n": True, "chain_cap": True},
